@@ -799,6 +799,22 @@ fn sweep_apps(thorough: bool) -> Vec<App> {
             apps.push(App::IdxF(v.clone(), w.to_string()));
         }
     }
+    // every text within two edits of a canonical timestamp (thorough: of three of them) under the
+    // date cast: un-zoned, blank-separated, short-field and shifted-blank neighbours
+    {
+        let mut texts = pool::timestamp_neighbourhood("2015-07-30T03:26:13Z", true);
+        if thorough {
+            texts.extend(pool::timestamp_neighbourhood("2015-07-30T03:26:13.5+02:00", true));
+            texts.extend(pool::timestamp_neighbourhood("1999-12-31 23:59:60Z", true));
+        } else {
+            texts.extend(pool::timestamp_neighbourhood("2015-07-30T03:26:13.5+02:00", false));
+        }
+        texts.sort();
+        texts.dedup();
+        for t in texts {
+            apps.push(App::Un(UnOp::DateTime, RV::Str(t)));
+        }
+    }
     // calendar: every day around the century years 1900 / 2000 / 2100 / 2400 (thorough: every day
     // of 1570..2770, three full 400-year cycles) under every date component; first / last second of
     // each of those days for the small set
@@ -877,6 +893,34 @@ fn sweep_apps(thorough: bool) -> Vec<App> {
                         apps.push(App::Bin(BinOp::Rem, RV::Dec(RDec { neg: true, ..a.clone() }), y.clone()));
                         apps.push(App::Bin(BinOp::Rem, x.clone(), RV::Dec(RDec { neg: true, ..b.clone() })));
                     }
+                }
+            }
+        }
+    }
+    // decimals at the machine-word boundaries (mantissas 2^k - 1, 2^k, 2^k + 1 for k = 31, 32, 63, 64,
+    // 95 and the largest one, both signs, scales 0 and 1) and the small numbers a word-sized fast
+    // path is written around (0, 1, -1, 2, 10), every pair under every arithmetic operator
+    {
+        let mut ms: Vec<u128> = vec![0, 1, 2, 10];
+        for k in [31u32, 32, 63, 64, 95] {
+            ms.extend([(1u128 << k) - 1, 1u128 << k, (1u128 << k) + 1]);
+        }
+        ms.push((1u128 << 96) - 1);
+        let mut ds: Vec<RV> = Vec::new();
+        for m in ms {
+            for scale in [0u32, 1] {
+                for neg in [false, true] {
+                    if m == 0 && neg {
+                        continue;
+                    }
+                    ds.push(RV::Dec(RDec { neg, mant: m, scale }));
+                }
+            }
+        }
+        for x in &ds {
+            for y in &ds {
+                for op in [BinOp::Add, BinOp::Sub, BinOp::Mult, BinOp::Div, BinOp::Rem] {
+                    apps.push(App::Bin(op, x.clone(), y.clone()));
                 }
             }
         }
